@@ -438,6 +438,10 @@ def syn_families() -> dict[str, dict]:
                                                   before=[S("A.b0"), S("A.b1", tasks=[["run", "ok"]]), S("A.b2")],
                                                   after=[S("A.a0"), S("A.a1", tasks=[["run", "ok"]])]),
                                                 S("B", ["A"])]}
+    # a task-less stage with after stages only (no before stage): its CompleteStage is pushed by StartStage itself, and a
+    # duplicate StartStage (recovery sweep, redelivery) re-plans it while it has no synthetic stage yet
+    f["syn_taskless_after_only"] = {"stages": [S("A"), S("P", ["A"], tasks=[], after=[S("P.a0", tasks=[["run", "ok"], ["fail"]])]),
+                                               S("D", ["P"])]}
     f["syn_multitask_child"] = {"stages": [S("A", tasks=[["ok"], ["ok"]], before=[S("A.b0", tasks=[["ok:k1=1"], ["run", "ok"]])],
                                            after=[S("A.a0", tasks=[["trans", "ok"]])])]}
     return f
@@ -925,6 +929,11 @@ def plan(pid: str, tier: str, rng: random.Random) -> list[dict]:
         for n in ("mutex_pair", "choice3", "mutex_suspend", "diamond"):
             for at in range(0, 18, 3):
                 add(kind="inject", what="maintenance", at=at, spec=fam[n], name=n, policy="fifo")
+        # duplicates made by a sweep (a second StartStage -> a re-plan -> a second CompleteStage) delivered LATE: random order
+        for n in ("syn_taskless_parent", "syn_taskless_after_only", "syn_two_after", "taskless"):
+            for at in range(0, 12):
+                for _rep in range(4 if thorough else 2):
+                    add(kind="inject", what="recover", at=at, times=1, spec=fam[n], name=n, policy="random")
         # "at any moment" includes BETWEEN two commits of one handler: a sweeper thread right after the k-th commit of a
         # delivery (harness-only action M: judged by the monitors - same outcome, no extra execution - not by the model)
         for n in (list(fam) if thorough else ["chain3", "diamond", "multitask", "poll", "transient2", "first_of", "or_split",
